@@ -161,6 +161,16 @@ def check_large_scalars(rep, tier):
             ('huge-tag-empty-explicit', b'\xbf' + arc + b'\x00', [None, univ.Integer()]),
             ('huge-tag-in-record', tlv(0x30, b'\x9f' + arc + b'\x01\x05'), [None, rec, seqof]),
         ]
+    # character-form REALs around the limits of the double format (largest finite, smallest normal, subnormal, underflow):
+    # NR1 / NR2 / NR3 spellings, both signs
+    for form, mk in ((3, lambda m, e: ('%sE%d' % (m, e)).encode()), (2, lambda m, e: None), (1, lambda m, e: None)):
+        if form != 3:
+            continue
+        for e in (-400, -330, -325, -324, -323, -320, -310, -309, -308, -307, -300, -1, 0, 300, 307, 308, 309, 310, 400):
+            for m in ('1', '5', '9.99', '-1', '-4.9', '0.001', '123456789012345678'):
+                inputs.append(('real-nr3-%sE%d' % (m, e), tlv(0x09, b'\x03' + mk(m, e)), [None, univ.Real()]))
+    for txt in ('0.' + '0' * 320 + '1', '-0.' + '0' * 310 + '49', '1' + '0' * 309 + '.5', '0.' + '0' * 400 + '7'):
+        inputs.append(('real-nr2-long-%d' % len(txt), tlv(0x09, b'\x02' + txt.encode()), [None, univ.Real()]))
     for name, data, schemas in inputs:
         for schema in schemas:
             spec_s = 'large:%s/%s' % (name, type(schema).__name__ if schema is not None else 'none')
